@@ -19,6 +19,7 @@ from build import Builder  # noqa
 from gen_prog import Gen, gen_context, I, B  # noqa
 import c05_gen  # noqa
 import c05_router  # noqa
+import c05_illtyped  # noqa
 import progcorpus  # noqa
 from c03 import store_dense_recipe  # noqa  (shared with C03: store/load-dense main routines)
 
@@ -222,6 +223,11 @@ def classify_known(ck, pt, model, c, st):
         f = ck.match_known(lambda f: f["id"] == "ctrl-in-operand")
         if f:
             return f
+    if c.kind == "illtyped":
+        # the only ill-typed family the pinned compiler accepts: arms of different concrete types in an If/ElseIf chain
+        if c.dname == "if-elseif-arms-mixed":
+            return ck.match_known(lambda f: f["id"] == "if-elseif-mixed-arm-types")
+        return None
     if isinstance(c, DenseCase):
         # class decided by the faithful compile model, so that a changed optimiser is never mistaken for the pinned one
         if c.optimiser_on() and c.model_known_orphan():
@@ -334,6 +340,8 @@ def replay(path):
                 rc = 1
         if case["kind"] == "router":
             c = c05_router.RouterCase(case["router"], case["which"], case["version"], case["scratch_slots"], case["frame_pointers"])
+        elif case["kind"] == "illtyped":
+            c = c05_illtyped.IllCase(case["defect"], case["context"], case["version"], case["frame_pointers"], case.get("flavour", 0), case.get("whole", False))
         elif case["kind"] == "dense":
             c = DenseCase(Model(), eval(case["recipe"]), case.get("reserve", {}), case["version"], case["mode"] == "app", case["scratch_slots"], case["frame_pointers"])
         else:
@@ -458,6 +466,22 @@ def main(argv):
     ck.coverage["router_cases"] = nrouter
     ck.coverage["router_matrix"] = "routers %s x versions 6..10 x optimize in %s x {approval, clear}" % (sorted(c05_router.ROUTERS), [o[0] for o in c05_router.OPTS])
 
+    # ---- 0a. the "nearly well-typed" stream: one typing defect per program; the compiler should reject, an acceptance is checked
+    before = (stats["compile_error"], stats["accept"] + stats["reject"] + stats["uncovered"] + stats["fuel"])
+    n_ill = 0
+    ill_accepted = {}
+    for c in c05_illtyped.all_cases():
+        consider(c, 3)
+        n_ill += 1
+        if c.real and c.real[0] == "ok":
+            ill_accepted[c.dname] = ill_accepted.get(c.dname, 0) + 1
+        elif c.real and c.real[1] not in PYTEAL_ERRORS:
+            ck.notes.append("ill-typed program %s/%s crashed the compiler with %s (C20's business)" % (c.dname, c.ctx, c.real[1]))
+    ck.coverage["illtyped_stream"] = {"offered": n_ill, "rejected_by_compiler": stats["compile_error"] - before[0],
+                                      "accepted_by_compiler": sum(ill_accepted.values()), "accepted_defects": ill_accepted,
+                                      "defects": len(c05_illtyped.defects()) + len(c05_illtyped.whole_programs()),
+                                      "contexts": ["%s/v%d/fp=%s" % x for x in c05_illtyped.CONTEXTS]}
+
     # ---- 0b. directed: store/load-dense main routines (C03's generator) with the slot optimiser on
     main_model = Model()
     n_dense = 400 if thorough else 45
@@ -532,7 +556,9 @@ def main(argv):
     main_model.close()
     return ck.finish(
         level="proof",
-        rule="programs: store/load-dense main routines (c03.store_dense_recipe; scratch_slots=True at v6, default at v9/v10; known-finding class decided by the Coq compile model), "
+        rule="programs: a nearly-well-typed stream (one typing defect per program: a value in statement position, none where a value is needed, an operand / store / "
+             "abi set / output.set / Return of the wrong concrete type; main routine, scratch-convention and frame-pointer subroutines; a compiler rejection is the expected outcome, an acceptance is checked), "
+             "store/load-dense main routines (c03.store_dense_recipe; scratch_slots=True at v6, default at v9/v10; known-finding class decided by the Coq compile model), "
              "a directed set of Router-built programs (2 ARC-4 routers: ABI methods with uint64/string/bool/address/tuple arguments, void and value results, "
              "bare create and opt-in actions, a recursive helper subroutine; approval and clear-state programs; versions 6..10 x optimize in {default, frame_pointers on/off, scratch_slots on/off}, "
              "each method and bare action executed), exhaustive small control-flow shapes x versions (main routine), seeded random main-routine programs (C01 generator, sizes 5..60, versions 2..10, "
